@@ -78,11 +78,12 @@ theorem fixed_iff_first_order {P : E → E} {C : Set E} (hP : IsProjOn P C) (g :
     have := mul_nonneg hpos.le (h w hw)
     linarith
 
-/-- first-order condition ⇒ global minimiser on `C`, from the gradient inequality of a convex function -/
-theorem min_of_first_order {f : E → ℝ} {g : E → E} (hconv : ∀ u w, f u + ⟪g u, w - u⟫ ≤ f w) {C : Set E} {x : E}
+/-- first-order condition ⇒ minimiser on `C`, from the gradient inequality of `f` AT `x` against the points of `C` only (no
+global convexity: the clipped relative-entropy losses satisfy it on the physical set, not on the whole space) -/
+theorem min_of_first_order {f : E → ℝ} {g : E → E} {C : Set E} {x : E} (hconv : ∀ w ∈ C, f x + ⟪g x, w - x⟫ ≤ f w)
     (h : ∀ w ∈ C, 0 ≤ ⟪g x, w - x⟫) : ∀ w ∈ C, f x ≤ f w := by
   intro w hw
-  have := hconv x w
+  have := hconv w hw
   have := h w hw
   linarith
 
@@ -111,14 +112,45 @@ theorem lsum_replicate (S : Nat) (n : K) : lsum (List.replicate S n) = S * n := 
   | zero => simp [lsum]
   | succ k ih => rw [List.replicate_succ, lsum_cons', ih]; push_cast; ring
 
-theorem weighted_const (c : K) (l : List (List K × List K)) :
-    lsum (((List.replicate l.length c).zip l).map fun (cpq : K × List K × List K) => cpq.1 * sqErr cpq.2.1 cpq.2.2)
-      = c * lsum (l.map fun pq => sqErr pq.1 pq.2) := by
+theorem weighted_const_gen (phi : List K × List K → K) (c : K) (l : List (List K × List K)) :
+    lsum (((List.replicate l.length c).zip l).map fun (cpq : K × List K × List K) => cpq.1 * phi cpq.2)
+      = c * lsum (l.map phi) := by
   induction l with
   | nil => simp [lsum]
   | cons a l ih =>
     rw [List.length_cons, List.replicate_succ, List.zip_cons_cons, List.map_cons, List.map_cons, lsum_cons', lsum_cons', ih]
     ring
+
+theorem weighted_const (c : K) (l : List (List K × List K)) :
+    lsum (((List.replicate l.length c).zip l).map fun (cpq : K × List K × List K) => cpq.1 * sqErr cpq.2.1 cpq.2.2)
+      = c * lsum (l.map fun pq => sqErr pq.1 pq.2) :=
+  weighted_const_gen (fun pq => sqErr pq.1 pq.2) c l
+
+theorem lsum_append' (l1 l2 : List K) : lsum (l1 ++ l2) = lsum l1 + lsum l2 := by
+  induction l1 with
+  | nil => simp [lsum]
+  | cons a l ih => rw [List.cons_append, lsum_cons', lsum_cons', ih]; ring
+
+theorem lsum_nonneg' : ∀ l : List K, (∀ v ∈ l, 0 ≤ v) → 0 ≤ lsum l
+  | [], _ => le_refl _
+  | a :: l, h => by
+    rw [lsum_cons']
+    have := lsum_nonneg' l (fun v hv => h v (List.mem_cons_of_mem _ hv))
+    have := h a (List.mem_cons_self ..)
+    linarith
+
+/-- with non-negative error values and a window `≥ 1`, the window sum dominates the last error value -/
+theorem last_le_windowSum (errs : List K) (e : K) (n : Nat) (hn : 1 ≤ n) (hpos : ∀ v ∈ errs, 0 ≤ v) :
+    e ≤ QM.C10.windowSum (errs ++ [e]) n := by
+  unfold QM.C10.windowSum
+  have hk : (errs ++ [e]).length - min (errs ++ [e]).length n ≤ errs.length := by
+    simp only [List.length_append, List.length_singleton]; omega
+  rw [List.drop_append_of_le_length hk, lsum_append']
+  have h0 : 0 ≤ lsum (List.drop ((errs ++ [e]).length - min (errs ++ [e]).length n) errs) :=
+    lsum_nonneg' _ (fun v hv => hpos v (List.mem_of_mem_drop hv))
+  have h1 : lsum [e] = e := by simp [lsum]
+  rw [h1]
+  linarith
 
 end cvx
 end QM.C11
@@ -170,59 +202,62 @@ open QM.C10
 open scoped RealInnerProductSpace
 variable {E : Type} [NormedAddCommGroup E] [InnerProductSpace ℝ E]
 
-/-- the accepted step size is the start value, or twice it was tested and rejected -/
+/-- the accepted step size is the start value, or twice it (still `≤` the start value) was tested and rejected -/
 theorem backtrack_prev_rejected (f : E → ℝ) (g : E → E) (dot : E → E → ℝ) (x y : E) (gamma : ℝ) :
-    ∀ (fuel : Nat) (a0 a : ℝ), backtrack f g dot x y gamma fuel a0 = some a →
-      a = a0 ∨ isDoingForAlpha f g dot x y (2 * a) gamma = true := by
+    ∀ (fuel : Nat) (a0 a : ℝ), 0 < a0 → backtrack f g dot x y gamma fuel a0 = some a →
+      a = a0 ∨ (isDoingForAlpha f g dot x y (2 * a) gamma = true ∧ 2 * a ≤ a0) := by
   intro fuel
   induction fuel with
-  | zero => intro a0 a h; simp [backtrack] at h
+  | zero => intro a0 a _ h; simp [backtrack] at h
   | succ fuel ih =>
-    intro a0 a h
+    intro a0 a h0 h
     unfold backtrack at h
     by_cases hd : isDoingForAlpha f g dot x y a0 gamma = true
     · rw [if_pos hd] at h
-      rcases ih _ a h with h1 | h1
+      have hhalf : (1 / (1 + 1) : ℝ) * a0 = a0 / 2 := by ring
+      rw [hhalf] at h
+      rcases ih _ a (by positivity) h with h1 | ⟨h1, h2⟩
       · right
         have : 2 * a = a0 := by rw [h1]; ring
-        rw [this]; exact hd
-      · exact Or.inr h1
+        exact ⟨by rw [this]; exact hd, by rw [this]⟩
+      · exact Or.inr ⟨h1, by linarith⟩
     · rw [if_neg hd] at h
       injection h with h
       exact Or.inl h.symm
 
-/-- the line search ends as soon as the tested step size is below a threshold under which every step is accepted -/
-theorem backtrack_terminates_of_threshold (f : E → ℝ) (g : E → E) (dot : E → E → ℝ) (x y : E) (gamma tau : ℝ) (htau : 0 < tau)
-    (hacc : ∀ a, 0 < a → a ≤ tau → isDoingForAlpha f g dot x y a gamma = false) :
-    ∀ (fuel : Nat) (a0 : ℝ), 0 < a0 → a0 / 2 ^ fuel ≤ tau → ∃ a, backtrack f g dot x y gamma (fuel + 1) a0 = some a := by
+/-- the line search ends as soon as the tested step size is below a threshold under which every step `≤ 1` is accepted -/
+theorem backtrack_terminates_of_threshold (f : E → ℝ) (g : E → E) (dot : E → E → ℝ) (x y : E) (gamma tau : ℝ)
+    (hacc : ∀ a, 0 < a → a ≤ tau → a ≤ 1 → isDoingForAlpha f g dot x y a gamma = false) :
+    ∀ (fuel : Nat) (a0 : ℝ), 0 < a0 → a0 ≤ 1 → a0 / 2 ^ fuel ≤ tau →
+      ∃ a, backtrack f g dot x y gamma (fuel + 1) a0 = some a := by
   intro fuel
   induction fuel with
   | zero =>
-    intro a0 h0 h
+    intro a0 h0 h1 h
     have h' : a0 ≤ tau := by simpa using h
     refine ⟨a0, ?_⟩
     unfold backtrack
-    rw [hacc a0 h0 h']; simp
+    rw [hacc a0 h0 h' h1]; simp
   | succ fuel ih =>
-    intro a0 h0 h
+    intro a0 h0 h1 h
     unfold backtrack
     by_cases hd : isDoingForAlpha f g dot x y a0 gamma = true
     · rw [if_pos hd]
       have hhalf : (1 / (1 + 1) : ℝ) * a0 = a0 / 2 := by ring
       rw [hhalf]
-      apply ih (a0 / 2) (by positivity)
+      apply ih (a0 / 2) (by positivity) (by linarith)
       have : a0 / 2 / 2 ^ fuel = a0 / 2 ^ (fuel + 1) := by rw [pow_succ]; field_simp
       rw [this]; exact h
     · rw [if_neg hd]; exact ⟨a0, rfl⟩
 
-/-- for a loss with the quadratic upper bound of an `L`-smooth function, every step size `α ≤ 2(1−γ)μ/L` passes the coded test
-along a direction with `⟪∇f, y⟫ ≤ −μ‖y‖²` -/
-theorem armijo_accepts_small {f : E → ℝ} {g : E → E} {Lc : ℝ} (hL : 0 < Lc)
-    (hsm : ∀ u v, f v ≤ f u + ⟪g u, v - u⟫ + Lc / 2 * ‖v - u‖ ^ 2) {mu gamma : ℝ} (hgam1 : gamma < 1)
-    (x y : E) (hdesc : ⟪g x, y⟫ ≤ -mu * ‖y‖ ^ 2) (a : ℝ) (ha : 0 < a) (hle : a ≤ 2 * (1 - gamma) * mu / Lc) :
+/-- if the loss has, AT `x`, the quadratic upper bound of an `L`-smooth function at the trial point `x + a y`, then the step size
+`a ≤ 2(1−γ)μ/L` passes the coded test along a direction with `⟪∇f, y⟫ ≤ −μ‖y‖²` -/
+theorem armijo_accepts_small {f : E → ℝ} {g : E → E} {Lc : ℝ} (hL : 0 < Lc) {mu gamma : ℝ} (hgam1 : gamma < 1)
+    (x y : E) (hdesc : ⟪g x, y⟫ ≤ -mu * ‖y‖ ^ 2) (a : ℝ) (ha : 0 < a) (hle : a ≤ 2 * (1 - gamma) * mu / Lc)
+    (hsm : f (x + a • y) ≤ f x + ⟪g x, (x + a • y) - x⟫ + Lc / 2 * ‖(x + a • y) - x‖ ^ 2) :
     isDoingForAlpha f g (fun p q : E => ⟪p, q⟫) x y a gamma = false := by
   unfold isDoingForAlpha
-  have h1 := hsm x (x + a • y)
+  have h1 := hsm
   have e : x + a • y - x = a • y := by abel
   rw [e, real_inner_smul_right, norm_smul, Real.norm_eq_abs, abs_of_pos ha] at h1
   have hc : ⟪y, g x⟫ = ⟪g x, y⟫ := real_inner_comm _ _
